@@ -1,5 +1,6 @@
 import GoguVerif.Lemmas.C15
 import GoguVerif.Lemmas.C15Case
+import GoguVerif.Lemmas.C15Case2
 /-!
 # C15 — property theorems: the string helpers cut, pad, wrap and re-case without losing or inventing text
 
@@ -307,7 +308,7 @@ neither starts nor ends with a separator (words separated by runs of separators)
 arbitrary functions that agree with the ASCII case mapping on ASCII letters and digits (`AsciiTable`).
 
 FULL STATEMENT (what the property says; the monitor `camelOk` / `delimOk` / `sameUpToDelim` judges all
-of it on the implementation's answers):
+of it on the implementation's answers) — proved below as `caseStyles_domain`:
 
     theorem caseStyles_domain (ht : AsciiTable lo up) (h : inDomain s = true) :
       camelOk s (camelCase lo up s) = true ∧
@@ -315,14 +316,9 @@ of it on the implementation's answers):
         delimOk 0x5F s r r = true ∧ snakeCase lo r = .ok r ∧
         delimOk 0x2D s k k = true ∧ kebabCase lo k = .ok k ∧ sameUpToDelim r k = true
 
-Proved below (`…_partial`): everything except (1) the third conjunct of `camelOk` — upper-case bytes
-of the CamelCase result occur only at word initials — and (2) idempotence `snakeCase lo r = .ok r`,
-`kebabCase lo k = .ok k`.  Missing for (1): the alignment of `Spec.initials true s` with the word list
-produced by the separator scanner and the split (the result itself is characterised exactly:
-`camelCase lo up s = camelWords true words`, first non-empty word lower-cased, later ones capitalised).
-Missing for (2): that the written text is a `join` of NON-EMPTY lower-case pieces (piece non-emptiness
-follows from `findCamel_starts`, not yet assembled) and the re-scan of such a text.  Both clauses are
-checked on every generated case by the monitor. -/
+The `…_partial` theorems (first milestone: everything except "upper case only at word initials" and
+idempotence) are kept; `camelCase_domain` builds on `camelCase_domain_partial`, and
+`snakeCase_domain_partial` is now a corollary of `snakeKebab_domain`. -/
 
 /-- **CamelCase** on the domain: the result contains no separator (only letters and digits) and keeps
 every letter and digit of the input in order (up to case). -/
@@ -337,41 +333,74 @@ theorem camelCase_domain_partial (lo up : Rune → Rune) (ht : AsciiTable lo up)
   rw [hlet, hflat]
   rfl
 
-/-- **SnakeCase / KebabCase** on the domain: neither panics; the Snake result consists of lower-case
-letters, digits and '_' only, keeps every letter and digit of the input in order (lower-cased), and
-the Kebab result is the Snake result with '_' replaced by '-'. -/
+/-- **CamelCase** on the domain, full clause: no separator, every letter and digit kept in order, and an
+upper-case byte occurs only where a word of the input begins (`Spec.initials`). -/
+theorem camelCase_domain (lo up : Rune → Rune) (ht : AsciiTable lo up) (s : Str) (h : inDomain s = true) :
+    camelOk s (camelCase lo up s) = true := by
+  obtain ⟨h1, h2⟩ := camelCase_domain_partial lo up ht s h
+  have hw := (chars_of_domain s h).1
+  have h3 : ((camelCase lo up s).zip (initials true s)).all (fun p => !isUpper p.1 || p.2) = true := by
+    unfold camelCase
+    rw [camelLoop_words ht _ hw true 0 0 [] (fun _ => rfl) (fun h => nomatch h), List.nil_append,
+      ← initials_domain s h]
+    exact camelWords_initials _ true
+  unfold camelOk
+  rw [h1, h2, h3]
+  simp
+
+/-- **SnakeCase / KebabCase** on the domain, full clause: neither panics; each result consists of
+lower-case letters, digits and its own delimiter only, keeps every letter and digit of the input in
+order (lower-cased), is a fixed point of its function (idempotence), and the Kebab result is the Snake
+result with '_' replaced by '-'. -/
+theorem snakeKebab_domain (lo up : Rune → Rune) (ht : AsciiTable lo up) (s : Str) (h : inDomain s = true) :
+    ∃ r k, snakeCase lo s = .ok r ∧ kebabCase lo s = .ok k ∧
+      delimOk 0x5F s r r = true ∧ snakeCase lo r = .ok r ∧
+      delimOk 0x2D s k k = true ∧ kebabCase lo k = .ok k ∧ sameUpToDelim r k = true := by
+  obtain ⟨hw, hflat⟩ := chars_of_domain s h
+  have hst : ∀ w ∈ splitSpace [] (replaceSeps false (trimSpace s)), Starts w.length (starts w) :=
+    fun w _ => starts_ok w
+  obtain ⟨hsb, hsl⟩ := snakeWords_spec 0x5F (by decide) _ hw hst
+  obtain ⟨hkb, hkl⟩ := snakeWords_spec 0x2D (by decide) _ hw hst
+  have hbytes : ∀ (d : UInt8) (r : Str), (∀ b ∈ r, isLowerAlnum b = true ∨ b = d) →
+      r.all (fun b => isDigit b || isLower b || b == d) = true := by
+    intro d r hr
+    rw [List.all_eq_true]
+    intro b hb
+    rcases hr b hb with h1 | h1
+    · simp only [isLowerAlnum, Bool.or_eq_true] at h1
+      simp only [Bool.or_eq_true]; exact Or.inl h1
+    · simp [h1]
+  refine ⟨_, _, split_domain_eval ht 0x5F s h, split_domain_eval ht 0x2D s h, ?_,
+    split_domain_idem ht 0x5F (by decide) s h, ?_, split_domain_idem ht 0x2D (by decide) s h, ?_⟩
+  · unfold delimOk
+    rw [hbytes _ _ hsb, hsl, hflat]
+    simp [letters]
+  · unfold delimOk
+    rw [hbytes _ _ hkb, hkl, hflat]
+    simp [letters]
+  · unfold sameUpToDelim
+    rw [snakeWords_swap _ hw]
+    simp
+
+/-- **The case-style clause of C15 on the stated domain**, for every pair of case tables that are the
+ASCII mapping on ASCII letters and digits. -/
+theorem caseStyles_domain (lo up : Rune → Rune) (ht : AsciiTable lo up) (s : Str) (h : inDomain s = true) :
+    camelOk s (camelCase lo up s) = true ∧
+    ∃ r k, snakeCase lo s = .ok r ∧ kebabCase lo s = .ok k ∧
+      delimOk 0x5F s r r = true ∧ snakeCase lo r = .ok r ∧
+      delimOk 0x2D s k k = true ∧ kebabCase lo k = .ok k ∧ sameUpToDelim r k = true :=
+  ⟨camelCase_domain lo up ht s h, snakeKebab_domain lo up ht s h⟩
+
+/-- (first milestone, now a corollary) Snake/Kebab without the idempotence clause. -/
 theorem snakeCase_domain_partial (lo up : Rune → Rune) (ht : AsciiTable lo up) (s : Str)
     (h : inDomain s = true) :
     ∃ r k, snakeCase lo s = .ok r ∧ kebabCase lo s = .ok k ∧
       r.all (fun b => isDigit b || isLower b || b == 0x5F) = true ∧ r.filter isAlnum = letters s ∧
       k.all (fun b => isDigit b || isLower b || b == 0x2D) = true ∧ k.filter isAlnum = letters s ∧
       sameUpToDelim r k = true := by
-  obtain ⟨hw, hflat⟩ := chars_of_domain s h
-  have hst : ∀ w ∈ splitSpace [] (replaceSeps false (trimSpace s)), Starts w.length (starts w) :=
-    fun w _ => starts_ok w
-  have hs := snakeLoop_words ht 0x5F _ _ hw hst 0 [] (Nat.zero_add _)
-  have hk := snakeLoop_words ht 0x2D _ _ hw hst 0 [] (Nat.zero_add _)
-  rw [List.nil_append] at hs hk
-  obtain ⟨hsb, hsl⟩ := snakeWords_spec 0x5F (by decide) _ hw hst
-  obtain ⟨hkb, hkl⟩ := snakeWords_spec 0x2D (by decide) _ hw hst
-  refine ⟨_, _, hs, hk, ?_, ?_, ?_, ?_, ?_⟩
-  · rw [List.all_eq_true]
-    intro b hb
-    rcases hsb b hb with h1 | h1
-    · simp only [isLowerAlnum, Bool.or_eq_true] at h1
-      simp only [Bool.or_eq_true]; exact Or.inl h1
-    · simp [h1]
-  · rw [hsl, hflat]; rfl
-  · rw [List.all_eq_true]
-    intro b hb
-    rcases hkb b hb with h1 | h1
-    · simp only [isLowerAlnum, Bool.or_eq_true] at h1
-      simp only [Bool.or_eq_true]; exact Or.inl h1
-    · simp [h1]
-  · rw [hkl, hflat]; rfl
-  · unfold sameUpToDelim
-    rw [snakeWords_swap _ hw]
-    simp
+  obtain ⟨r, k, hr, hk, h1, _, h2, _, h3⟩ := snakeKebab_domain lo up ht s h
+  simp only [delimOk, Bool.and_eq_true, beq_iff_eq] at h1 h2
+  exact ⟨r, k, hr, hk, h1.1.1, h1.1.2, h2.1.1, h2.1.2, h3⟩
 
 /-- the ASCII case mapping as a table: the hypotheses above are satisfiable -/
 def asciiLo (r : Nat) : Nat := if 0x41 ≤ r ∧ r ≤ 0x5A then r + 32 else r
@@ -402,5 +431,14 @@ example : delimOk 0x5F [0x61,0x2D,0x62] [0x61,0x5F] [0x61,0x5F] = false := by de
 example : delimOk 0x5F [0x61,0x2D,0x62] [0x61,0x2D,0x62] [0x61,0x2D,0x62] = false := by decide
 example : camelOk [0x61,0x62,0x2D,0x63] [0x61,0x42,0x43] = false := by decide
 example : camelOk [0x61,0x62,0x2D,0x63] [0x61,0x62,0x43] = true := by decide
+
+-- idempotence and the initials clause on the example: Snake("fooBar-baz") = "foo_bar_baz" is a fixed point;
+-- Camel("fooBar-baz") = "foobarBaz" has its only capital where the second word begins
+example : snakeCase asciiLo [0x66,0x6F,0x6F,0x5F,0x62,0x61,0x72,0x5F,0x62,0x61,0x7A] =
+    .ok [0x66,0x6F,0x6F,0x5F,0x62,0x61,0x72,0x5F,0x62,0x61,0x7A] := by decide
+example : camelOk [0x66,0x6F,0x6F,0x42,0x61,0x72,0x2D,0x62,0x61,0x7A]
+    (camelCase asciiLo asciiUp [0x66,0x6F,0x6F,0x42,0x61,0x72,0x2D,0x62,0x61,0x7A]) = true := by decide
+-- the idempotence check is not vacuous: a text with a trailing delimiter would be rejected
+example : delimOk 0x5F [0x61] [0x61] [0x61, 0x5F] = false := by decide
 
 end GoguVerif.Theorems.C15
